@@ -69,7 +69,7 @@ def check_cases(cases: list[dict], rep: Report, known: dict) -> None:
         shared = len(set(t for t in c["e"].split(" ") if "@" in t)) < sum(1 for t in c["e"].split(" ") if "@" in t)
         for v in vs:
             if obj[0] == "ok":
-                impl = call(lambda: obj[1].component(v if len(v) % 2 else X.Variable(v)))
+                impl = call(lambda: obj[1].component(wire.fresh_str(v) if len(v) % 2 else X.Variable(wire.fresh_str(v))))
             else:
                 impl = obj
             info = dict(c, x=v, impl=repr(impl), shared=shared)
